@@ -43,11 +43,11 @@ def V(names=("p", "q", "r"), stages=(0, 1), reps=("none", "n2", "vs"), aggs=(Tru
 SLICES = {
     "quick": {
         # every fault kind at every position, two components, all ways of asking for replicas
-        "two": V(names=("p", "q"), reps=("none", "n2", "vs", "vc"), comps=2, package=4),
+        "two": V(names=("p", "q"), reps=("none", "n2", "vs", "vc"), comps=2, package=2),
         # structural faults on three components (chains, diamonds, aggregators), one stage
-        "three": V(stages=(0,), reps=("none", "n2"), spell=("rel",), faults=["none", "drop", "rename", "cycle", "dup", "var"], package=16),
+        "three": V(stages=(0,), reps=("none", "n2"), spell=("rel",), faults=["none", "drop", "rename", "cycle", "dup", "var"], package=8),
         # structural faults across two stages
-        "stages": V(reps=("none",), aggs=(False,), spell=("abs",), faults=["drop", "rename", "restage", "cycle", "dup"], package=16),
+        "stages": V(reps=("none",), aggs=(False,), spell=("abs",), faults=["drop", "rename", "restage", "cycle", "dup"], package=4),
     },
     "thorough": {
         "two": V(names=("p", "q"), reps=("none", "n1", "n2", "n3", "vg", "vs", "vc"), comps=2, package=4, paths=("", "out.txt")),
@@ -195,6 +195,13 @@ def run(tier):
     for k in (("drop", True), ("drop", False), ("var", True), ("var", False), ("none", True), ("cycle", False), ("dup", False)):
         if not seen.get(k):
             raise MachineryError("no mutant with fault/validity %s (vacuous)" % (k,))
+    if tier == "thorough":
+        # reachability witnesses: each Never* invariant must FAIL
+        for wit in ("NeverAcceptsMutant", "NeverRejects"):
+            cfg = write_cfg(os.path.join(gen, "Validate_wit_%s.cfg" % wit), SLICES["quick"]["two"], False, [wit])
+            r = tlc.run_tlc("Validate", cfg, workers=4, expect_violation=True, timeout=300)
+            if r["violated"] != wit:
+                raise MachineryError("witness %s was not reached: %s" % (wit, r["out"][-800:]))
     chk.cov["mutants_by_fault_and_validity"] = {"%s/%s" % k: v for k, v in sorted(seen.items())}
     chk.cov["rule"] = ("one case = one mutated state of spec/Validate.tla: (base workflow of the Replicate family with fixed names, one "
                        "fault at one position) of the slices %s; every mutant is loaded with WorkflowGraph.graphFromFlowIR(primitive=False), "
